@@ -1,13 +1,15 @@
 #!/usr/bin/env bash
+# Validation on the unchanged tree: thorough tier of every claimed check, then a multi-seed quick sweep.
+# Prints only violations / harness errors and timing lines. Evidence goes to a scratch directory.
 cd /verif || exit 2
 ./check build || exit 2
-for s in 1 2 3 4 5 6 7 8 9 10 11 12 13 14 15 16 17 18 19 20; do
-  for p in C02 C08 C09 C10 C11 C12 C13 C14 C15 C16 C17 C18 C20; do
-    VERIF_SEED=$s VERIF_OUT_DIR=/var/tmp/validate-out ./check $p quick 2>&1 | grep -E "VIOLATION|HARNESS|violation in" 
-  done
-  echo "seed $s done"
-done
 for p in C02 C08 C09 C10 C11 C12 C13 C14 C15 C16 C17 C18 C20; do
   t0=$(date +%s); VERIF_OUT_DIR=/var/tmp/validate-out ./check $p thorough 2>&1 | grep -E "VIOLATION|HARNESS|violation in|violations="; echo "$p thorough took $(( $(date +%s) - t0 ))s"
+done
+for s in 21 22 23 24 25 26 27 28 29 30; do
+  for p in C02 C08 C09 C10 C11 C12 C13 C14 C15 C16 C17 C18 C20; do
+    VERIF_SEED=$s VERIF_OUT_DIR=/var/tmp/validate-out ./check $p quick 2>&1 | grep -E "VIOLATION|HARNESS|violation in"
+  done
+  echo "seed $s done"
 done
 rm -rf /var/tmp/validate-out
